@@ -34,6 +34,8 @@ func scenarioC08(r *Run) {
 	if g.Chance("sendfault", 0.25) {
 		w.sEnd.FaultSendAt[g.Int("sendfaultat", nops)] = []int{fSendErrLost, fSendErrAfter}[g.Int("sendfaultkind", 2)]
 	}
+	r.applyForce(w.sEnd)
+	defer func() { r.noteOps(w.sEnd) }()
 	w.sEnd.OnFault = func(kind int) {
 		switch kind {
 		case fRecvErr, fRecvDataErr:
